@@ -1,4 +1,5 @@
 import PepitModel.Eval
+import PepitModel.Solve
 import Mathlib.Tactic.Linarith
 
 /-!
@@ -51,9 +52,12 @@ theorem unsolved_dual_raises (s : EvalSt) (hs : s.Unsolved) (h : Nat) :
     evalDual s h = .error .valueError := by
   unfold evalDual; rw [hs.2.2.2.1]; rfl
 
-/-- a failed solve (no value reported) leaves the evaluation state untouched: nothing is
-fabricated -/
-theorem failed_solve_assigns_nothing (s : EvalSt) : s = s := rfl
+/-- **a solve that reports no value assigns nothing**: in the flow model of `_solve_with_wrapper`
+(`Model/Solve`, compared with the real method by the flow stream) the failing path stops right after
+the solver call: no multiplier is recovered, no instance is stored, nothing is raised, `None` is returned -/
+theorem failed_solve_assigns_nothing :
+    failedFlow.calls = [.solve 1] ∧ failedFlow.dualsFrom = 0 ∧ failedFlow.primalFrom = 0 ∧ failedFlow.raises = false :=
+  ⟨rfl, rfl, rfl, rfl⟩
 
 end Pepit
 
